@@ -197,3 +197,26 @@ CLAIMS.update({
         note=COMMON_NOTE + ' httputil.DumpResponse and net/http framing are modelled as "any message of the grammar" and tied by parsing what was really stored; trailers are compared for presence of the body only (net/http keeps them outside the header map).'),
 })
 NOT_YET = {}
+
+# the part of the model each property rests on that is regenerated from /repo's Go source on every run (DESIGN.md section 9)
+_TIE = ' Source tie: %s — the translator translate/main.go re-derives %s from /repo before every build and the theorem proves the hand-written model equal to it, so a source change that alters it breaks this obligation.'
+_TIES = {
+    'C01': ('C01_source_decision', 'the branch structure of handleCacheHit (which tests, in which order, lead to serving / background revalidation / 504 / validation)'),
+    'C02': ('C02_source_decision', 'the branch structure of handleCacheHit'),
+    'C18': ('C18_source_decision', 'the branch structure of handleCacheHit'),
+    'C09': ('C09_source_decision, C09_source_heuristic_statuses', 'the branch structure of handleCacheHit and the table of heuristically cacheable statuses'),
+    'C13': ('C13_source_decision, C13_source_error_statuses', 'the branch structure of handleCacheHit and isStaleErrorAllowed'),
+    'C06': ('C06_source_storability, C06_source_status_tables, C06_source_method_gate', 'canStoreResponse, the status tables and isRequestMethodUnderstood'),
+    'C03': ('C03_source_method_gate', 'isRequestMethodUnderstood (GET without Range)'),
+    'C07': ('C07_source_tables', 'IsUnsafeMethod, IsNonErrorStatus and the Location / Content-Location table'),
+    'C05': ('C05_source_hop_by_hop', 'the fixed hop-by-hop field table'),
+    'C11': ('C11_source_status_fields', 'the status field names and the five CacheStatus values'),
+    'C12': ('C12_source_max_delta', 'maxDeltaSeconds and maxDuration'),
+    'C14': ('C14_source_fragments', 'fragmentSize and dirMarker of the file namer'),
+    'C20': ('C20_source_default_timeout', 'DefaultSWRTimeout'),
+}
+for _pid, (_thm, _what) in _TIES.items():
+    CLAIMS[_pid]['text'] += _TIE % (_thm, _what)
+for _pid in ('C08', 'C19', 'C20'):
+    CLAIMS[_pid]['text'] += (' The run also executes TestOverlap: the same client\'s requests while a stale-while-revalidate background validation is in flight '
+                             '(forced validation replacing the entry; another variant stored, then an invalidation; another variant served stale).')
